@@ -156,6 +156,64 @@ fn call(f: &str, a: &[Value]) -> Value {
             Err(_) => json!({"variant":"Err","payload":[null]}),
         },
         "merkle_scenario" => merkle_scenario(a),
+        // MerkleAccumulator::add_merkle_leaf: args = [mdat bytes (latin-1), [cut offsets], large_size, fixed leaf size in BYTES]
+        "merkle_accumulate" => {
+            use c2pa::verif_hooks::merkle::MerkleAccumulator;
+            let data: Vec<u8> = s(&a[0]).chars().map(|c| c as u32 as u8).collect();
+            let cuts: Vec<usize> = a[1].as_array().unwrap().iter().map(|c| c.as_u64().unwrap() as usize).collect();
+            let large = a[2].as_bool().unwrap();
+            let f = a[3].as_u64().unwrap() as usize;
+            let mut whole = MerkleAccumulator::new("sha256").unwrap();
+            whole.fixed_size = Some(f);
+            let whole_ok = whole.add_merkle_leaf(0, large, &data).is_ok();
+            let mut pieces = MerkleAccumulator::new("sha256").unwrap();
+            pieces.fixed_size = Some(f);
+            let mut prev = 0usize;
+            let mut pieces_ok = true;
+            for c in cuts.iter().chain(std::iter::once(&data.len())) {
+                if *c > prev {
+                    pieces_ok &= pieces.add_merkle_leaf(0, large, &data[prev..*c]).is_ok();
+                }
+                prev = *c;
+            }
+            let same = whole.merkle_leaves.get(&0).cloned().unwrap_or_default() == pieces.merkle_leaves.get(&0).cloned().unwrap_or_default()
+                && whole.fixed_size_remainder.get(&0).cloned().unwrap_or_default() == pieces.fixed_size_remainder.get(&0).cloned().unwrap_or_default();
+            json!({"whole_ok": whole_ok, "pieces_ok": pieces_ok, "same": same,
+                   "whole_leaves": whole.merkle_leaves.get(&0).map(|v| v.len()).unwrap_or(0),
+                   "pieces_leaves": pieces.merkle_leaves.get(&0).map(|v| v.len()).unwrap_or(0)})
+        }
+        // Context::check_progress: args = [callback installed, callback returns, cancel flag, step, total]
+        "check_progress" => {
+            let installed = a[0].as_bool().unwrap();
+            let ret = a[1].as_bool().unwrap();
+            let flag = a[2].as_bool().unwrap();
+            let called = std::sync::Arc::new(std::sync::atomic::AtomicBool::new(false));
+            let c2 = called.clone();
+            let mut ctx = c2pa::Context::new();
+            if installed {
+                ctx = ctx.with_progress_callback(move |_, _, _| { c2.store(true, std::sync::atomic::Ordering::SeqCst); ret });
+            }
+            if flag {
+                ctx.cancel();
+            }
+            let r = ctx.verif_check_progress(a[3].as_u64().unwrap() as u32, a[4].as_u64().unwrap() as u32);
+            json!({"ok": r.is_ok(), "cancelled": matches!(r, Err(c2pa::Error::OperationCancelled)), "called": called.load(std::sync::atomic::Ordering::SeqCst)})
+        }
+        // range hashing with a callback that cancels at call k: args = [data, [[s,l]], is_exclusion, max_hash_buf, k]
+        "hash_cancel" => {
+            let data: Vec<u8> = s(&a[0]).chars().map(|c| c as u32 as u8).collect();
+            let ranges = a[1].as_array().map(|rs| rs.iter().map(|r| c2pa::HashRange::new(r[0].as_u64().unwrap(), r[1].as_u64().unwrap())).collect::<Vec<_>>());
+            let excl = a[2].as_bool().unwrap();
+            let maxbuf = a[3].as_u64().unwrap() as usize;
+            let k = a[4].as_u64().unwrap() as usize;
+            let mut steps: Vec<(u32, u32)> = Vec::new();
+            let mut cur = std::io::Cursor::new(data);
+            let res = c2pa::verif_hooks::hash_hooks::hash_stream_with_max_buf("sha256", &mut cur, ranges, excl, maxbuf, &mut |s_, t_| {
+                steps.push((s_, t_));
+                if steps.len() == k + 1 { Err(c2pa::Error::OperationCancelled) } else { Ok(()) }
+            });
+            json!({"ok": res.is_ok(), "cancelled": matches!(res, Err(c2pa::Error::OperationCancelled)), "steps": steps})
+        }
         // real range hashing: args = [data (latin-1 text), [[start,len]..] | null, is_exclusion, max_hash_buf, expected bytes (hex)]
         "hash_ranges" => {
             let data: Vec<u8> = s(&a[0]).chars().map(|c| c as u32 as u8).collect();
